@@ -141,10 +141,74 @@ func genSchema(r *hx.Rand) SchemaSpec {
 			}
 		}
 	}
-	for _, un := range uns {
-		s.Types = append(s.Types, TypeSpec{Kind: "union", Name: un, Members: pickN(r, objs, r.Range(1, len(objs)))})
+	// Objects reachable through their interfaces only: no root field, no field of a visible type and no
+	// union names them, but they refer to themselves / to each other (Folder.parent: Folder). The tool
+	// learns about them from the introspected `types` list alone (AdditionalTypes of the rebuilt schema).
+	hidden := map[string]bool{}
+	if len(ifs) > 0 && r.Chance(1, 3) {
+		var cands []string
+		for _, t := range s.Types {
+			if t.Kind == "object" && len(t.Ifaces) > 0 {
+				cands = append(cands, t.Name)
+			}
+		}
+		if len(cands) > 0 && len(objs) > 1 {
+			hx.Shuffle(r, cands)
+			n := 1
+			if len(cands) > 1 && len(objs) > 2 && r.Bool() {
+				n = 2
+			}
+			for _, h := range cands[:n] {
+				hidden[h] = true
+			}
+		}
 	}
-	// roots: every composite type is reachable from Query, plus a few leaves
+	if len(hidden) > 0 {
+		// a field of any type that names a hidden object is retargeted to one of the object's interfaces
+		// (the same way everywhere, so that equal field names keep equal types)
+		var retarget func(t TypeRef) TypeRef
+		retarget = func(t TypeRef) TypeRef {
+			if t.Kind != "n" {
+				in := retarget(*t.Of)
+				return TypeRef{Kind: t.Kind, Of: &in}
+			}
+			if hidden[t.Name] {
+				return named(s.Type(t.Name).Ifaces[0])
+			}
+			return t
+		}
+		for ti := range s.Types {
+			for fi := range s.Types[ti].Fields {
+				s.Types[ti].Fields[fi].Type = retarget(s.Types[ti].Fields[fi].Type)
+			}
+		}
+		hs := sortedKeys(hidden)
+		for i, h := range hs {
+			t := s.Type(h)
+			t.Fields = append(t.Fields, FieldSpec{Name: "parent" + h, Type: wrapType(r, h, true)})
+			if len(hs) > 1 {
+				o := hs[(i+1)%len(hs)]
+				t.Fields = append(t.Fields, FieldSpec{Name: "buddy" + o, Type: wrapType(r, o, false)})
+			}
+		}
+		var visible []string
+		for _, c := range composite {
+			if !hidden[c] {
+				visible = append(visible, c)
+			}
+		}
+		composite = visible
+	}
+	var visibleObjs []string
+	for _, o := range objs {
+		if !hidden[o] {
+			visibleObjs = append(visibleObjs, o)
+		}
+	}
+	for _, un := range uns {
+		s.Types = append(s.Types, TypeSpec{Kind: "union", Name: un, Members: pickN(r, visibleObjs, r.Range(1, len(visibleObjs)))})
+	}
+	// roots: every visible composite type is reachable from Query, plus a few leaves
 	q := TypeSpec{Kind: "object", Name: "Query"}
 	for i, c := range composite {
 		q.Fields = append(q.Fields, FieldSpec{Name: fmt.Sprintf("get%s", c), Type: wrapType(r, c, true), HasArg: i%3 == 0})
